@@ -5,6 +5,7 @@ package main
 
 import (
 	"bufio"
+	"bytes"
 	"context"
 	"fmt"
 	"github.com/Allenxuxu/ringbuffer"
@@ -428,6 +429,75 @@ func (r *Run) c17SharedOptionSlice() {
 	r.count("c17.codec.shared-option-slice")
 }
 
+// c17KeptPackets: the application keeps what it was given. The push handler tags each packet (Metadata.Set) and hands
+// it to a worker goroutine that reads body, signature and metadata a little later, while the connection keeps receiving
+// frames of other sizes. A received packet shares nothing with the connection's buffers or with another packet.
+func (r *Run) c17KeptPackets() {
+	for v := 1; v <= 2; v++ {
+		type kept struct {
+			p        *protocol.Packet
+			seq      int
+			sig, bod string
+		}
+		ch := make(chan kept, 1024)
+		var bad atomic.Value
+		var seq int32
+		s, err := openSessionPrep("tcp", v, func(tc *testClient) {
+			tc.cli.Subscribe(50, func(p *protocol.Packet) {
+				n := int(atomic.AddInt32(&seq, 1))
+				if p.Metadata.Get("seq") != "" {
+					bad.Store("a freshly received packet already carries the tag of another packet: " + p.Metadata.Get("seq"))
+				}
+				if p.Metadata.Values != nil { // a v1 frame has no metadata block and its packet no map: Set would panic (observation in DESIGN.md)
+					p.Metadata.Set("seq", itoa(n))
+				}
+				defer func() { recover() }() // a delivery after the scenario has closed the channel
+				select {
+				case ch <- kept{p, n, hx(p.Metadata.Signature), hx(p.Body)}:
+				default:
+				}
+			})
+		})
+		if err != nil {
+			continue
+		}
+		var wg sync.WaitGroup
+		wg.Add(1)
+		go func() {
+			defer wg.Done()
+			for k := range ch {
+				time.Sleep(3 * time.Millisecond)
+				if got := k.p.Metadata.Get("seq"); got != itoa(k.seq) && k.p.Metadata.Values != nil {
+					bad.Store("the tag set on packet " + itoa(k.seq) + " reads " + got + " a moment later")
+				}
+				if hx(k.p.Metadata.Signature) != k.sig || hx(k.p.Body) != k.bod {
+					bad.Store("signature or body of packet " + itoa(k.seq) + " changed after it was delivered")
+				}
+			}
+		}()
+		n := 150
+		for i := 0; i < n; i++ {
+			f := &RefFrame{V: v, Type: 3, Verify: true, Cmd: 50, Nonce: uint64(i + 1), Sig: bytes.Repeat([]byte{byte(0x40 + i%50)}, 16),
+				Body: bytes.Repeat([]byte{byte('a' + i%26)}, 1+(i*37)%400), MLenField: -1, BLenField: -1}
+			if v == 2 && i%3 == 0 {
+				f.Meta = refMarshalMap(map[string]string{"k": "v" + itoa(i)}, 65535)
+			}
+			s.lk.sendFrame(f.encode())
+			time.Sleep(time.Millisecond)
+		}
+		waitUntil(2*time.Second, func() bool { return int(atomic.LoadInt32(&seq)) >= n })
+		time.Sleep(20 * time.Millisecond)
+		s.close()
+		close(ch)
+		wg.Wait()
+		if b := bad.Load(); b != nil {
+			r.violate(Violation{What: "a received packet is not the application's own: " + b.(string), Case: fmt.Sprintf("tcp v%d: %d signed pushes of varying sizes, every third with metadata (v2); handler tags and forwards each to a worker", v, n)})
+		}
+		r.st.Evaluations++
+		r.count(fmt.Sprintf("c17.kept-packets.v%d", v))
+	}
+}
+
 func itoa(n int) string {
 	if n == 0 {
 		return "0"
@@ -448,7 +518,7 @@ func (r *Run) sub() *Run {
 func runC17(r *Run) {
 	installHooks()
 	hub.reset()
-	r.st.Rule = "binary built with -race: (1) mixed scenario on TCP and WebSocket - 8 callers of Do, 2 of AuthInfo, incoming responses, pushes and server heartbeats, keepalive ticks every 30 ms, connection loss + recovery (RECONNECT), server close packet, Close while callers are calling; (2) frames split across socket reads on one connection while 8 callers pack requests on another (shared codec pools); (3) bursts of 64 callers overflowing the WebSocket write queue; 8 callers with 2.5-3 KB bodies (gzip path, pooled compressors); 8 callers of the packet constructors spreading one shared option slice with spare capacity; (4) the scenario suites of the other client properties run once more under the detector (quick: C05, C14, C15; thorough: all). A report counts when both access stacks are inside the library."
+	r.st.Rule = "binary built with -race: (1) mixed scenario on TCP and WebSocket - 8 callers of Do, 2 of AuthInfo, incoming responses, pushes and server heartbeats, keepalive ticks every 30 ms, connection loss + recovery (RECONNECT), server close packet, Close while callers are calling; (2) frames split across socket reads on one connection while 8 callers pack requests on another (shared codec pools); (3) bursts of 64 callers overflowing the WebSocket write queue; 8 callers with 2.5-3 KB bodies (gzip path, pooled compressors); 8 callers of the packet constructors spreading one shared option slice with spare capacity; received packets (signed, with and without metadata, both versions) tagged by the handler and read by a worker goroutine while further frames arrive; (4) the scenario suites of the other client properties run once more under the detector (quick: C05, C14, C15; thorough: all). A report counts when both access stacks are inside the library."
 	for _, trans := range []string{"tcp", "ws"} {
 		r.c17Mix(trans)
 	}
@@ -457,6 +527,7 @@ func runC17(r *Run) {
 	r.c17GzipBodies()
 	r.c17CodecPoolsAfterErrors()
 	r.c17SharedOptionSlice()
+	r.c17KeptPackets()
 	suites := map[string]func(*Run){"C05": runC05, "C14": runC14, "C15": runC15}
 	order := []string{"C05", "C14", "C15"}
 	if r.thorough() {
